@@ -102,12 +102,14 @@ def excluded_tables():
 
 
 def excluded_shape():
-    """_is_hardcoded_excluded: suffix test, then a loop over ALL parts of the path as given"""
+    """_is_hardcoded_excluded: suffix test, then a loop over the parts of the path it is handed (all of them, or - after
+    fix 27377de - the directory parts only)"""
     mm = _shape_re(CORE, None, "_is_hardcoded_excluded",
                    r"if file_path\.suffix in _HARDCODED_EXCLUDE_EXTENSIONS:\n    return True\n"
-                   r"for part in file_path\.parts:\n    if part in _HARDCODED_EXCLUDE_DIRS:\n        return True\n"
+                   r"for part in file_path\.parts(\[:-1\])?:\n    if part in _HARDCODED_EXCLUDE_DIRS:\n        return True\n"
                    r"    if part\.endswith\(('[^']*')\):\n        return True\nreturn False")
-    suf = ast.literal_eval(mm.group(1))
+    skips_name = mm.group(1) is not None
+    suf = ast.literal_eval(mm.group(2))
     m2 = _shape_re(CORE, None, "_should_include_dir",
                    r"return dirname not in _HARDCODED_EXCLUDE_DIRS and \(not dirname\.endswith\(('[^']*')\)\)")
     if ast.literal_eval(m2.group(1)) != suf or not suf:
@@ -124,7 +126,8 @@ def excluded_shape():
         scope = "ScProjectRelParts"
     else:
         raise Unsupported("Orchestrator.lint_file no longer starts with the two modelled path filters")
-    return defn("excluded_suffix_of_part", "string", coq_string(suf)) + defn("hard_exclusion_scope", "pscope", scope)
+    return (defn("excluded_suffix_of_part", "string", coq_string(suf)) + defn("hard_exclusion_scope", "pscope", scope)
+            + defn("hard_exclusion_skips_file_name", "bool", "true" if skips_name else "false"))
 
 
 # ---------------------------------------------------------------- repo-level ignore
@@ -133,9 +136,12 @@ def repo_ignore_shape():
         "path_str = str(file_path)\nwith suppress(KeyError):\n    return self._ignore_cache[path_str]\n"
         "try:\n    check_path = str(file_path.relative_to(self.project_root))\nexcept ValueError:\n    check_path = path_str\n"
         "result = any((matches_pattern(check_path, p) for p in self.repo_patterns))\nself._ignore_cache[path_str] = result\nreturn result": 1})
+    # after fix bbae54e: .thailintignore patterns, then the `ignore:` list of the first existing config file
     mm = _shape_re(IGN, None, "_load_repo_ignores",
-                   r"thailintignore = project_root / ('[^']*')\nif thailintignore\.exists\(\):\n    return _parse_thailintignore_file\(thailintignore\)\n"
-                   r"config_file = project_root / ('[^']*')\nif config_file\.exists\(\):\n    return _parse_config_file\(config_file\)\nreturn \[\]")
+                   r"patterns: list\[str\] = \[\]\nthailintignore = project_root / ('[^']*')\nif thailintignore\.exists\(\):\n"
+                   r"    patterns\.extend\(_parse_thailintignore_file\(thailintignore\)\)\nfor name in \(('[^']*'), ('[^']*')\):\n"
+                   r"    config_file = project_root / name\n    if config_file\.exists\(\):\n"
+                   r"        patterns\.extend\(_parse_config_file\(config_file\)\)\n        break\nreturn patterns")
     m2 = _shape_re(IGN, None, "_extract_ignore_patterns",
                    r"if not config or not isinstance\(config, dict\):\n    return \[\]\nignore_patterns = config\.get\(('[^']*'), \[\]\)\n"
                    r"if isinstance\(ignore_patterns, list\):\n    return \[str\(pattern\) for pattern in ignore_patterns\]\nreturn \[\]")
@@ -148,14 +154,17 @@ def repo_ignore_shape():
         "effective_root = project_root or Path.cwd()\n"
         "if _CACHED_PARSER is None or _CACHED_PROJECT_ROOT != effective_root:\n    _CACHED_PARSER = IgnoreDirectiveParser(effective_root)\n"
         "    _CACHED_PROJECT_ROOT = effective_root\nreturn _CACHED_PARSER": "false"})
+    # after fix 9c8f928: `**/x` also matches at the root; directory patterns match whole DIRECTORY components or `dir/*`
     _shape(PU, None, "matches_pattern", {
+        "if pattern.startswith('**/') and matches_pattern(path, pattern[3:]):\n    return True\n"
         "if pattern.endswith('/'):\n    return _matches_directory_pattern(path, pattern)\n"
         "return fnmatch.fnmatch(path, pattern) or fnmatch.fnmatch(str(Path(path)), pattern)": 1})
     _shape(PU, None, "_matches_directory_pattern", {
-        "dir_pattern = pattern.rstrip('/')\npath_parts = Path(path).parts\nif dir_pattern in path_parts:\n    return True\n"
-        "return fnmatch.fnmatch(path, dir_pattern + '*')": 1})
+        "dir_pattern = pattern.rstrip('/')\npath_parts = Path(path).parts\nif dir_pattern in path_parts[:-1]:\n    return True\n"
+        "return fnmatch.fnmatch(path, dir_pattern + '/*')": 1})
     return (defn("repo_ignore_file", "string", coq_string(ast.literal_eval(mm.group(1))))
             + defn("repo_ignore_config_file", "string", coq_string(ast.literal_eval(mm.group(2))))
+            + defn("repo_ignore_config_file_json", "string", coq_string(ast.literal_eval(mm.group(3))))
             + defn("repo_ignore_config_key", "string", coq_string(ast.literal_eval(m2.group(1))))
             + defn("repo_ignore_relative_to_root_with_fallback", "bool", "true")
             + defn("ignore_parser_default_root_is_cwd", "bool", cwd_default))
@@ -235,12 +244,14 @@ def _rust_sig(pkg, cls, key):
     if not _body(f).endswith("return not is_ignored_path(resolve_file_path(context), config.ignore)"):
         raise Unsupported(f"{pkg}: _should_analyze does not end with the modelled is_ignored_path test")
     g = _body(_fn(L + pkg + "/linter.py", None, "_get_config"))
-    mm = re.search(r"load_linter_config\(context, '([^']*)', \w+\)", g)
-    if not mm:
-        raise Unsupported(f"{pkg}: config key lookup not found")
-    # the loader keeps top-level keys as written; a hyphenated lookup key finds a hyphenated section only.  The harness writes
-    # hyphenated sections, so the list is honoured iff the lookup key is the hyphenated name.
-    return "ISubstr", _rust_default(pkg, cls), mm.group(1) == key
+    under = key.replace("-", "_")
+    if g.endswith(f"key = '{under}' if '{under}' in getattr(context, 'metadata', {{}}) else '{key}'\nreturn load_linter_config(context, key, {cls})"):
+        honoured = True    # fix cc0b16c: the normalised section key is looked up
+    elif re.search(r"return load_linter_config\(context, '" + re.escape(key) + r"', \w+\)$", g):
+        honoured = False   # hyphenated lookup never finds the normalised section
+    else:
+        raise Unsupported(f"{pkg}: config key lookup has none of the modelled shapes")
+    return "ISubstr", _rust_default(pkg, cls), honoured
 
 
 def _uses_cwd_parser(rel, cls) -> bool:
@@ -256,6 +267,9 @@ def _uses_cwd_parser(rel, cls) -> bool:
     if any(n.args or n.keywords for n in calls):
         raise Unsupported(f"{rel}: get_ignore_parser called with arguments in __init__ (not modelled)")
     return True
+
+
+_FP_CONSTS = ""
 
 
 def _sig(name, ikind, from_cfg, default, py="t_none", ts="t_none", rs="t_none", cwd=False):
@@ -297,9 +311,8 @@ def command_sigs():
     for pkg, cls, ccls, key in (("unwrap_abuse", "UnwrapAbuseRule", "UnwrapAbuseConfig", "unwrap-abuse"),
                                 ("clone_abuse", "CloneAbuseRule", "CloneAbuseConfig", "clone-abuse"),
                                 ("blocking_async", "BlockingAsyncRule", "BlockingAsyncConfig", "blocking-async")):
-        ik, dflt, _hyphen = _rust_sig(pkg, ccls, key)
-        # whether a configured list reaches the rule is a C05 matter; hand-declared here (false) and validated by correspondence
-        out.append(_sig(key, ik, False, dflt, cwd=_uses_cwd_parser(L + pkg + "/linter.py", cls)))
+        ik, dflt, honoured = _rust_sig(pkg, ccls, key)
+        out.append(_sig(key, ik, honoured, dflt, cwd=_uses_cwd_parser(L + pkg + "/linter.py", cls)))
     # method-property
     rel, cls = L + "method_property/linter.py", "MethodPropertyRule"
     ik = _match_or_substr(rel, cls)
@@ -324,14 +337,22 @@ def command_sigs():
     out.append(_sig("stateless-class", ik, False, [], py=_tspec(contains=lits[:2], starts=lits[2:], nstarts=[ast.literal_eval(m3.group(1))]),
                     cwd=_uses_cwd_parser(rel, cls)))
     # file-placement
-    _shape(L + "file_placement/path_resolver.py", "PathResolver", "get_relative_path", {
+    global _FP_CONSTS
+    rerooted = _shape(L + "file_placement/path_resolver.py", "PathResolver", "get_relative_path", {
         "try:\n    if file_path.is_absolute():\n        return file_path.relative_to(self.project_root)\n    return file_path\n"
-        "except ValueError:\n    return file_path": 1})
-    _shape(L + "file_placement/directory_matcher.py", "DirectoryMatcher", "_check_path_match", {
+        "except ValueError:\n    return file_path": "false",
+        # fix 12368d4
+        "try:\n    if file_path.is_absolute():\n        return file_path.relative_to(self.project_root)\n"
+        "    return file_path.resolve().relative_to(self.project_root.resolve())\nexcept ValueError:\n    return file_path": "true"})
+    sep = _shape(L + "file_placement/directory_matcher.py", "DirectoryMatcher", "_check_path_match", {
         "if dir_path == '/':\n    return self._check_root_match(dir_path, path_str)\nif path_str.startswith(dir_path):\n"
-        "    depth = len(dir_path.split('/'))\n    return (True, depth)\nreturn (False, -1)": 1})
+        "    depth = len(dir_path.split('/'))\n    return (True, depth)\nreturn (False, -1)": "false",
+        # fix a23cd20
+        "if dir_path == '/':\n    return self._check_root_match(dir_path, path_str)\nif path_str.startswith(dir_path.rstrip('/') + '/'):\n"
+        "    depth = len(dir_path.split('/'))\n    return (True, depth)\nreturn (False, -1)": "true"})
+    _FP_CONSTS = defn("fp_relative_paths_rerooted", "bool", rerooted) + defn("fp_dir_rule_needs_separator", "bool", sep)
     out.append(_sig("file-placement", "IFpDirPrefix", True, [], cwd=False))
-    return defn("command_sigs", "list cmdsig", "[" + ";\n  ".join(out) + "]")
+    return defn("command_sigs", "list cmdsig", "[" + ";\n  ".join(out) + "]") + _FP_CONSTS
 
 
 def other_ignore_kinds():
